@@ -82,35 +82,9 @@ C08Call ==
        /\ \A p \in P7 : ~Flagged(a, p)
     /\ Step
 
-\* KNOWN FINDING F2 (known_findings.json), modelled as what the code does: for a method that defines Isha by an
-\* interval (Isha angle 0), the angle-0 Isha is still tested for existence; on a day where Maghrib exists but the Sun's
-\* centre never reaches 0 degrees (|lat| 66..67.5 near the winter solstice) an 'invalid' policy replaces that Isha,
-\* the interval rewrite then restores Maghrib + interval but keeps the extreme flag.  Accepted only while listed, only
-\* for this shape (same value, flag added, nothing else differs), and every use is printed.
-KnownF2 == "KNOWN_F2" \in DOMAIN IOEnv /\ IOEnv.KNOWN_F2 = "1"
-C08KnownF2 ==
-    /\ Is("c08") /\ KnownF2 /\ WellFormed(Ev.a) /\ WellFormed(Ev.b)
-    /\ Ev.p.ii # 0 /\ Ev.p.ia = 0 /\ Ev.p.pol \in InvalidPolicies
-    /\ Ok(Ev.a, Isha) /\ Ev.b.t[Isha] = Ev.a.t[Isha] /\ ~Flagged(Ev.a, Isha) /\ Flagged(Ev.b, Isha)
-    /\ \A p \in P7 \ {Isha} : SameEntry(Ev.a, Ev.b, p)
-    /\ PrintT(<<"KNOWN", "F2", l>>)
-    /\ Step
-
-\* KNOWN FINDING F3 (known_findings.json): the same cause as F2 under the AngleBased policy ("only if their calculated
-\* prayer times are invalid"): every time exists conventionally (Isha = Maghrib + interval), but the hidden angle-0 Isha
-\* does not, so angle_based runs, replaces the valid Fajr (and with it Imsaak) and flags Isha, whose value the interval
-\* rewrite then restores.  Accepted only while listed and only for this shape.
-KnownF3 == "KNOWN_F3" \in DOMAIN IOEnv /\ IOEnv.KNOWN_F3 = "1"
-C08KnownF3 ==
-    /\ Is("c08") /\ KnownF3 /\ WellFormed(Ev.a) /\ WellFormed(Ev.b)
-    /\ Ev.p.ii # 0 /\ Ev.p.ia = 0 /\ Ev.p.pol = AngleBased
-    /\ \A p \in P7 : Ok(Ev.a, p) /\ ~Flagged(Ev.a, p)
-    /\ Ok(Ev.b, Isha) /\ Ev.b.t[Isha] = Ev.a.t[Isha] /\ Flagged(Ev.b, Isha)
-    /\ \A p \in {Shurooq, Dhuhr, Asr, Maghrib} : SameEntry(Ev.a, Ev.b, p)
-    /\ Ok(Ev.b, Fajr) /\ Flagged(Ev.b, Fajr)
-    /\ Ok(Ev.b, Imsaak) => Flagged(Ev.b, Imsaak)
-    /\ PrintT(<<"KNOWN", "F3", l>>)
-    /\ Step
+\* (Until D9 was repaired two named actions, C08KnownF2 / C08KnownF3, accepted - while known_findings.json listed them -
+\* the shapes "interval-defined Isha unchanged but flagged" and "AngleBased replaced a valid Fajr"; fixtures/ keeps
+\* recorded events of both shapes, which this specification must reject.)
 
 (* C09: nb = conventional results (same offsets and rounding, policy None) of the dates d+o,
    for o = -m..m where m is the distance of the nearest date on which Fajr and Isha both exist *)
@@ -243,7 +217,7 @@ PipeCall ==
     /\ Step
 
 TraceInit == l = Start
-TraceNext == PipeCall \/ C05Call \/ C07Call \/ C08Call \/ C08KnownF2 \/ C08KnownF3 \/ C09Call \/ C10Call \/ C11Call \/ C12Call
+TraceNext == PipeCall \/ C05Call \/ C07Call \/ C08Call \/ C09Call \/ C10Call \/ C11Call \/ C12Call
 TraceSpec == TraceInit /\ [][TraceNext]_l
 
 TraceAccepted ==
